@@ -19,6 +19,7 @@ use sos_core::{
     VaultFlags,
 };
 use std::panic::{catch_unwind, AssertUnwindSafe};
+mod reducer;
 
 fn rt() -> tokio::runtime::Runtime {
     tokio::runtime::Builder::new_current_thread().build().unwrap()
@@ -28,25 +29,25 @@ fn hex(b: &[u8]) -> String {
     b.iter().map(|x| format!("{:02x}", x)).collect()
 }
 
-struct Rng(u64);
+pub struct Rng(pub u64);
 impl Rng {
-    fn next(&mut self) -> u64 {
+    pub fn next(&mut self) -> u64 {
         self.0 ^= self.0 << 13;
         self.0 ^= self.0 >> 7;
         self.0 ^= self.0 << 17;
         self.0
     }
-    fn bytes(&mut self, n: usize) -> Vec<u8> {
+    pub fn bytes(&mut self, n: usize) -> Vec<u8> {
         (0..n).map(|_| self.next() as u8).collect()
     }
-    fn arr<const N: usize>(&mut self) -> [u8; N] {
+    pub fn arr<const N: usize>(&mut self) -> [u8; N] {
         let mut a = [0u8; N];
         for x in a.iter_mut() {
             *x = self.next() as u8;
         }
         a
     }
-    fn below(&mut self, n: u64) -> u64 {
+    pub fn below(&mut self, n: u64) -> u64 {
         self.next() % n
     }
 }
@@ -300,6 +301,9 @@ fn main() {
             }
             if all || ty == "CommitHash" { roundtrip!("CommitHash", CommitHash, |r: &mut Rng| CommitHash(r.arr()), cases, seed); }
             if all || ty == "Comparison" { roundtrip!("Comparison", Comparison, gen_comparison, cases, seed); }
+        }
+        "reducer-replay" => {
+            rt().block_on(reducer::run(cases, seed));
         }
         "codec-fuzz" => {
             if all || ty == "AeadPack" { fuzz!("AeadPack", AeadPack, gen_aead, cases, seed); }
